@@ -96,7 +96,7 @@ def main():
             "guard": "--cfg similari_verif",
             "enable": "rustflags in /verif/harness/.cargo/config.toml: --cfg similari_verif (plus -C target-cpu=x86-64-v3 as in /repo/.cargo/config.toml); the harness depends on /repo by path, so every ./run rebuilds /repo's working tree with hooks on",
             "baseline_off_cmd": "cd /repo && cargo test --workspace --no-fail-fast --offline",
-            "source_commits": ["64cbe0e", "838f926 (moves one guarded schedule point inside owned_track_distances together with the fix)"],
+            "source_commits": ["64cbe0e", "838f926 (moves one guarded schedule point inside owned_track_distances together with the fix)", "ab5eaad"],
             "add_only": True,
         },
         "engines": [
